@@ -118,6 +118,33 @@ def handle (j : Json) : Json :=
     match dDrop (fld j "d") with
     | .ok d => respondDoc j (renderDrop d)
     | .error e => Json.mkObj [("bad", Json.str e)]
+  | .ok "bstep" =>
+    -- builder calls on the state read from a real receiver.  Answers the exception class, or — given the state read
+    -- from the real result (`post`) — whether the model's post-state renders like it, plus the bookkeeping attributes
+    match (do pure ((← dCtx (fld j "ctx")), (← dBSt (fld j "st")), (← (← fArr j "calls").mapM dBCall),
+                    (← jOpt dQuery (fld j "post"))) : D (Ctx × B.St × List B.Call × Option Query)) with
+    | .ok (c, st, calls, post) =>
+      (match B.run st calls with
+       | .error e => Json.mkObj [("exc", Json.str (strOf e))]
+       | .ok s' =>
+         let rtext (d : Doc) : String := match firstErr d with
+           | some e => "!exc:" ++ strOf e
+           | none => strOf (flatten d)
+         let mine := rtext (render c (.sub s'.r.toQ))
+         let tref (t : Option TRef) : Json := match t with
+           | none => Json.null
+           | some t => Json.mkObj [("name", match t.name with | some n => Json.str (strOf n) | none => Json.null),
+                                   ("schema", Json.arr (t.schema.map (fun x => Json.str (strOf x))).toArray),
+                                   ("alias", match t.alias with | some n => Json.str (strOf n) | none => Json.null)]
+         let hidden := [("select_star", Json.bool s'.selectStar),
+           ("star_tables", Json.arr (s'.starTables.map tref).toArray), ("sub_count", toJson s'.subCount)]
+         match post with
+         | none => Json.mkObj ([("sql", Json.str mine)] ++ hidden)
+         | some pq =>
+           let theirs := rtext (render c (.sub pq))
+           if mine == theirs then Json.mkObj ([("agree", Json.bool true)] ++ hidden)
+           else Json.mkObj ([("agree", Json.bool false), ("model_sql", Json.str mine), ("impl_sql", Json.str theirs)] ++ hidden))
+    | .error e => Json.mkObj [("bad", Json.str e)]
   | .ok "tbleq" =>
     match (do pure ((← dTbl (fld j "a")), (← dTbl (fld j "b"))) : D (Tbl × Tbl)) with
     | .ok (a, b) => Json.mkObj [("eq", Json.bool (a.beq b)), ("hash_eq", Json.bool (a.hashKey == b.hashKey)),
